@@ -49,20 +49,18 @@ PREAMBLE = (common.COQ_HEADER +
 # ----------------------------------------------------------------------------------------------------------
 
 def split_entities(text):
-    """text of each design unit pair (entity + architecture), keyed by lower-cased entity name"""
-    out = {}
-    cur = None
-    buf = []
+    """text of each design unit pair (entity + architecture), in emission order"""
+    out = []
+    buf = None
     for line in text.split("\n"):
-        m = re.match(r"\s*entity\s+(\w+)\s+is\s*$", line, re.I)
-        if m:
-            if cur is not None:
-                out.setdefault(cur, "\n".join(buf))
-            cur = m.group(1).lower()
+        if re.match(r"\s*entity\s+(\w+)\s+is\s*$", line, re.I):
+            if buf is not None:
+                out.append("\n".join(buf))
             buf = []
-        buf.append(line)
-    if cur is not None:
-        out.setdefault(cur, "\n".join(buf))
+        if buf is not None:
+            buf.append(line)
+    if buf is not None:
+        out.append("\n".join(buf))
     return out
 
 
@@ -327,12 +325,14 @@ def build_cases(dname, vhdl):
     for e in ents:
         by_name.setdefault(e.name.lower(), e)
     cases = []
-    for e in ents:
+    if len(texts) != len(ents):
+        raise R.Unparsed("design units cannot be separated")
+    for e, etext in zip(ents, texts):
         d, ren, sub, stmts, insts = entity_design(e)
         pr = R.CoqPrinter(d)
         dterm = pr.design()
         aterms, ainfo = assoc_terms(e, insts, by_name, pr, ren, sub)
-        nterm, ninfo = names_term(e, texts.get(e.name.lower(), ""))
+        nterm, ninfo = names_term(e, etext)
         term = "{| ec_d := %s;\n ec_names := %s;\n ec_assoc := [%s] |}" % (dterm, nterm, "; ".join(aterms))
         cases.append(ECase(dname, e, term, {"names": ninfo, "stmts": stmts, "assoc": ainfo, "design": d}))
     return cases, [e.name for e in ents]
@@ -488,3 +488,969 @@ def eval_cases(ck, tag, cases, shard=24, timeout=1500):
         res[si:si + n] = vs
         common._cleanup_v(path)
     return res
+
+
+def coqc_big(vfile, timeout=1500):
+    """coqc with a large stack (very long statement sequences nest deeply in the printed term)"""
+    import subprocess
+    cmd = "ulimit -s unlimited 2>/dev/null || ulimit -s 4000000 2>/dev/null; exec timeout %d coqc -Q %s Cohdl -w -all %s" % (
+        timeout, os.path.join(common.COQ_DIR, "theories"), vfile)
+    p = subprocess.run(["bash", "-c", cmd], capture_output=True, text=True, cwd=os.path.dirname(vfile))
+    return p.returncode, p.stdout, p.stderr
+
+
+def eval_one_big(ck, tag, case):
+    path = os.path.join(ck.gen, "%s_big.v" % tag)
+    with open(path, "w") as f:
+        f.write(PREAMBLE)
+        f.write("Definition c0 : ecase := %s.\n" % case.term)
+        f.write("Eval vm_compute in (map verdict [c0]).\n")
+    rc, out, err = coqc_big(path)
+    if rc != 0:
+        return ("coq-error", (out + err)[-1500:])
+    vs = parse_verdicts(common.coq_outputs(out)[-1])
+    common._cleanup_v(path)
+    return vs[0]
+
+
+# ----------------------------------------------------------------------------------------------------------
+# design sources
+# ----------------------------------------------------------------------------------------------------------
+
+HDR = ("import cohdl\n"
+       "from cohdl import Bit, BitVector, Unsigned, Signed, Port, Signal, Variable, Temporary, Array, Null, Full, "
+       "select_with\n"
+       "from cohdl import std\n\n")
+
+RESERVED_POOL = ["signal", "buffer", "process", "begin", "end", "type", "of", "to", "downto", "register", "bus",
+                 "label", "open", "range", "next", "exit", "all", "abs", "mod", "out", "port", "entity", "variable",
+                 "case", "others", "null", "select", "then", "loop", "default", "Signal", "BUFFER", "Process"]
+PYKW_POOL = ["in", "is", "for", "if", "not", "and", "or", "with", "else", "while", "return"]     # name= strings only
+PREDEF_POOL = PREDEF_TYPES + PREDEF_FUNCS + PREDEF_LITS + PREDEF_LIBS + ["To_Integer", "BOOLEAN", "Rising_Edge",
+                                                                         "RESIZE", "True", "Work"]
+UNDERSCORE_POOL = ["_x", "x_", "_x_", "x__y", "a__b", "y___z", "_", "q1_", "_q2"]
+UNDERSCORE_STR_POOL = ["__x", "x__", "__"]                                                       # name= strings only
+
+
+def naming_design(rng, idx):
+    """one design of the NAMING generator: the names of ports / signals / variables / processes / entities are drawn
+    from pools of reserved, predefined, generated, underscore-decorated and colliding names"""
+    slots = {"clk": "clk", "a": "a", "b": "b", "i": "i", "o": "o", "q": "q", "r": "r",       # ports
+             "s": "s", "t": "t", "v": "v",                                                   # signals, variable
+             "comb": "comb", "seq": "seq", "co": "co",                                       # contexts
+             "Top": "Top%d" % idx, "Sub": "Sub"}
+    port_slots = ["a", "b", "i", "o", "q", "r", "clk"]
+    str_slots = ["s", "t", "v"]
+    fn_slots = ["comb", "seq", "co"]
+    ent_slots = ["Top", "Sub"]
+    feats = {"sub": rng.random() < 0.4, "coro": rng.random() < 0.6, "var": rng.random() < 0.7,
+             "idx": rng.random() < 0.7, "shift": rng.random() < 0.5, "cmp": rng.random() < 0.6,
+             "reserved": None}
+    special = []
+    nspecial = rng.choice([1, 1, 2, 2, 3])
+    for _ in range(nspecial):
+        kind = rng.choice(["reserved", "predefined", "generated", "underscore", "case", "pykw", "collide", "userres"])
+        slot = rng.choice(port_slots + str_slots * 2 + fn_slots + ent_slots)
+        name = None
+        if kind == "reserved":
+            name = rng.choice(RESERVED_POOL)
+        elif kind == "predefined":
+            name = rng.choice(PREDEF_POOL)
+        elif kind == "generated":
+            cands = ["buffer_" + slots["o"], "buffer_" + slots["q"], "temp", "temp1", "temp2", "temp3", "state_0",
+                     "state_1", "s_" + slots["co"], "state_" + slots["co"], "comp_" + slots["Sub"],
+                     "arch_" + slots["Top"], "array_type", "proc", "sig", "var", "inst", "concurrent",
+                     "cohdl_bool_to_std_logic", "inp"]
+            name = rng.choice(cands)
+            if name in ("state_0", "state_1") or name.startswith(("s_", "state_")):
+                feats["coro"] = True
+            if name.startswith("comp_"):
+                feats["sub"] = True
+        elif kind == "underscore":
+            name = rng.choice(UNDERSCORE_POOL + (UNDERSCORE_STR_POOL if slot in str_slots else []))
+        elif kind == "pykw":
+            slot = rng.choice(str_slots)
+            name = rng.choice(PYKW_POOL)
+        elif kind in ("case", "collide"):
+            other = rng.choice([k for k in slots if k != slot and k not in ent_slots])
+            base = slots[other]
+            name = base if kind == "collide" else (base.upper() if base.upper() != base else base.lower())
+            if name == base and slot not in str_slots:
+                name = base.capitalize() if base.capitalize() != base else base + "X"
+        elif kind == "userres":
+            other = rng.choice(str_slots + fn_slots)
+            base = slots[other]
+            feats["reserved"] = [rng.choice([base, base.upper(), base.capitalize()])]
+            special.append((kind, other, feats["reserved"][0]))
+            continue
+        if slot in port_slots + fn_slots + ent_slots:
+            if not re.fullmatch(r"[A-Za-z_][A-Za-z0-9_]*", name) or name in PYKW_POOL or name in ("None", "True", "False") \
+                    or name.startswith("__"):
+                continue
+            # python attribute / function names must stay distinct (python would overwrite)
+            others = [slots[k] for k in (port_slots if slot in port_slots else fn_slots if slot in fn_slots else ent_slots)
+                      if k != slot]
+            if name in others:
+                continue
+            if slot in fn_slots and name in ("self",):
+                continue
+        slots[slot] = name
+        special.append((kind, slot, name))
+    S = slots
+    L = []
+    L.append(HDR)
+    if feats["sub"]:
+        L.append("class %s(cohdl.Entity):\n    x = Port.input(Bit)\n    y = Port.output(Bit)\n\n"
+                 "    def architecture(self):\n        @std.concurrent\n        def logic():\n"
+                 "            self.y <<= ~self.x\n\n" % S["Sub"])
+    L.append("class %s(cohdl.Entity):\n" % S["Top"])
+    L.append("    %s = Port.input(Bit)\n    %s = Port.input(Bit)\n    %s = Port.input(Unsigned[4])\n"
+             "    %s = Port.input(Unsigned[2])\n    %s = Port.output(Bit)\n    %s = Port.output(Unsigned[4])\n"
+             "    %s = Port.output(Unsigned[4])\n\n" % (S["clk"], S["a"], S["b"], S["i"], S["o"], S["q"], S["r"]))
+    L.append("    def architecture(self):\n")
+    L.append("        sig_s = Signal[Bit](name=%r)\n        sig_t = Signal[Unsigned[4]](name=%r)\n" % (S["s"], S["t"]))
+    if feats["sub"]:
+        L.append("        %s(x=self.%s, y=sig_s)\n" % (S["Sub"], S["a"]))
+    L.append("\n        @std.concurrent\n        def %s():\n" % S["comb"])
+    if not feats["sub"]:
+        L.append("            sig_s.next = self.%s\n" % S["a"])
+    L.append("            sig_t.next = self.%s\n" % S["i"])
+    if feats["idx"]:
+        L.append("            self.%s <<= self.%s[self.%s]\n" % (S["o"], S["b"], S["i"]))
+    else:
+        L.append("            self.%s <<= sig_s\n" % S["o"])
+    L.append("\n        @std.sequential(std.Clock(self.%s))\n        def %s():\n" % (S["clk"], S["seq"]))
+    if feats["var"]:
+        L.append("            var_v = Variable[Unsigned[4]](name=%r)\n            var_v @= sig_t + 1\n" % S["v"])
+        src = "var_v"
+    else:
+        src = "sig_t"
+    rhs = "%s << 1" % src if feats["shift"] else src
+    if feats["cmp"]:
+        L.append("            if self.%s == 3:\n                self.%s <<= %s\n            else:\n"
+                 "                self.%s <<= %s\n" % (S["b"], S["q"], rhs, S["q"], src))
+    else:
+        L.append("            self.%s <<= %s\n" % (S["q"], rhs))
+    if feats["coro"]:
+        L.append("\n        @std.sequential(std.Clock(self.%s))\n        async def %s():\n"
+                 "            self.%s <<= self.%s\n            await sig_s\n            self.%s <<= Null\n"
+                 % (S["clk"], S["co"], S["r"], S["b"], S["r"]))
+    else:
+        L.append("\n        @std.concurrent\n        def drive_r():\n            self.%s <<= self.%s\n" % (S["r"], S["b"]))
+    return {"name": "nm%04d" % idx, "source": "".join(L), "entity": S["Top"], "reserved": feats["reserved"],
+            "meta": {"gen": "naming", "special": special, "features": {k: v for k, v in feats.items()}}}
+
+
+# expression generator: (statement template, ports used) ; {w} {w2} widths
+def _vec(kind, w):
+    return "%s[%d]" % ({"U": "Unsigned", "S": "Signed", "B": "BitVector"}[kind], w)
+
+
+def expr_statements(rng, tier):
+    """list of dicts {ports: {name: (dir, type)}, body: [lines], ctx: 'concurrent'|'sequential', tag}"""
+    out = []
+    W = [1, 2, 3, 8]
+
+    def add(tag, ports, body, ctx="concurrent", pre=None):
+        out.append({"tag": tag, "ports": ports, "body": body, "ctx": ctx, "pre": pre or []})
+
+    for w in W:
+        for w2 in W:
+            for k in "US":
+                if k == "S" and (w < 2 or w2 < 2):
+                    continue
+                wm = max(w, w2)
+                for op, pyop in (("add", "+"), ("sub", "-")):
+                    add("%s_%s%d_%s%d" % (op, k, w, k, w2), {"a": ("in", _vec(k, w)), "b": ("in", _vec(k, w2)),
+                                                              "o": ("out", _vec(k, wm))}, ["self.o <<= self.a %s self.b" % pyop])
+                add("mul_%s%d_%s%d" % (k, w, k, w2), {"a": ("in", _vec(k, w)), "b": ("in", _vec(k, w2)),
+                                                      "o": ("out", _vec(k, w + w2))}, ["self.o <<= self.a * self.b"])
+                for op, pyop in (("div", "//"), ("mod", "%")):
+                    add("%s_%s%d_%s%d" % (op, k, w, k, w2), {"a": ("in", _vec(k, w)), "b": ("in", _vec(k, w2)),
+                                                              "o": ("out", _vec(k, wm))}, ["self.o <<= self.a %s self.b" % pyop])
+                for cmp_ in ("==", "!=", "<", "<=", ">", ">="):
+                    add("cmp%s_%s%d_%s%d" % (cmp_, k, w, k, w2), {"a": ("in", _vec(k, w)), "b": ("in", _vec(k, w2)),
+                                                                  "o": ("out", "Bit")}, ["self.o <<= self.a %s self.b" % cmp_])
+                if w2 > w:
+                    add("widen_%s%d_%s%d" % (k, w, k, w2), {"a": ("in", _vec(k, w)), "o": ("out", _vec(k, w2))},
+                        ["self.o <<= self.a"])
+                    add("widen_seq_%s%d_%s%d" % (k, w, k, w2), {"clk": ("in", "Bit"), "a": ("in", _vec(k, w)),
+                                                                "o": ("out", _vec(k, w2))}, ["self.o <<= self.a"], "sequential")
+            for k1 in "BUS":
+                for k2 in "BUS" + "b":
+                    t2 = "Bit" if k2 == "b" else _vec(k2, w2)
+                    ww = w + (1 if k2 == "b" else w2)
+                    add("concat_%s%d_%s%d" % (k1, w, k2, w2), {"a": ("in", _vec(k1, w)), "b": ("in", t2),
+                                                               "o": ("out", _vec("B", ww))}, ["self.o <<= self.a @ self.b"])
+            # U[w] <- U[w2] unsigned to signed and back through views
+            if w == w2:
+                for k1, k2, view in (("U", "S", "signed"), ("S", "U", "unsigned"), ("U", "B", "bitvector"), ("B", "U", "unsigned"),
+                                     ("B", "S", "signed"), ("S", "B", "bitvector")):
+                    add("view_%s%d_%s" % (k1, w, view), {"a": ("in", _vec(k1, w)), "o": ("out", _vec(k2, w))},
+                        ["self.o <<= self.a.%s" % view])
+                    add("viewtgt_%s%d_%s" % (k1, w, view), {"a": ("in", _vec(k2, w)), "o": ("out", _vec(k1, w))},
+                        ["self.o.%s <<= self.a" % view])
+        for k in "BUS":
+            add("inv_%s%d" % (k, w), {"a": ("in", _vec(k, w)), "o": ("out", _vec(k, w))}, ["self.o <<= ~self.a"])
+            for op in "&|^":
+                add("bit%s_%s%d" % (op, k, w), {"a": ("in", _vec(k, w)), "b": ("in", _vec(k, w)), "o": ("out", _vec(k, w))},
+                    ["self.o <<= self.a %s self.b" % op])
+            add("ifexpr_%s%d" % (k, w), {"a": ("in", _vec(k, w)), "b": ("in", _vec(k, w)), "c": ("in", "Bit"),
+                                         "o": ("out", _vec(k, w))}, ["self.o <<= self.a if self.c else self.b"])
+            add("boolcast_%s%d" % (k, w), {"a": ("in", _vec(k, w)), "o": ("out", "Bit")}, ["self.o <<= bool(self.a)"])
+            add("null_full_%s%d" % (k, w), {"c": ("in", "Bit"), "o": ("out", _vec(k, w))},
+                ["self.o <<= Null if self.c else Full"])
+            for j in sorted({0, w - 1, w // 2}):
+                add("idx_%s%d_%d" % (k, w, j), {"a": ("in", _vec(k, w)), "o": ("out", "Bit")}, ["self.o <<= self.a[%d]" % j])
+                add("idxtgt_%s%d_%d" % (k, w, j), {"a": ("in", "Bit"), "o": ("out", _vec(k, w))},
+                    ["self.o <<= Null", "self.o[%d] <<= self.a" % j], "sequential")
+            if w >= 2:
+                iw = 1 if w == 2 else (2 if w == 3 else 3)
+                add("rtidx_%s%d" % (k, w), {"a": ("in", _vec(k, w)), "i": ("in", _vec("U", iw)), "o": ("out", "Bit")},
+                    ["self.o <<= self.a[self.i]"])
+                add("rtidxtgt_%s%d" % (k, w), {"clk": ("in", "Bit"), "a": ("in", "Bit"), "i": ("in", _vec("U", iw)),
+                                               "o": ("out", _vec(k, w))}, ["self.o[self.i] <<= self.a"], "sequential")
+                for hi, lo in sorted({(w - 1, 1), (w - 2, 0), (w - 1, w - 1), (0, 0)}):
+                    sw = hi - lo + 1
+                    add("slice_%s%d_%d_%d" % (k, w, hi, lo), {"a": ("in", _vec(k, w)), "o": ("out", _vec("B", sw))},
+                        ["self.o <<= self.a[%d:%d]" % (hi, lo)])
+                    add("sliceu_%s%d_%d_%d" % (k, w, hi, lo), {"a": ("in", _vec(k, w)), "o": ("out", _vec("U", sw))},
+                        ["self.o <<= self.a[%d:%d].unsigned" % (hi, lo)])
+                    add("slicetgt_%s%d_%d_%d" % (k, w, hi, lo), {"clk": ("in", "Bit"), "a": ("in", _vec("B", sw)),
+                                                                 "o": ("out", _vec(k, w))},
+                        ["self.o[%d:%d] <<= self.a" % (hi, lo)], "sequential")
+        for k in "US":
+            if k == "S" and w < 2:
+                continue
+            add("neg_%s%d" % (k, w), {"a": ("in", _vec(k, w)), "o": ("out", _vec(k, w))}, ["self.o <<= -self.a"])
+            add("neg_seq_%s%d" % (k, w), {"clk": ("in", "Bit"), "a": ("in", _vec(k, w)), "o": ("out", _vec(k, w))},
+                ["self.o <<= -self.a"], "sequential")
+            if k == "S":
+                add("abs_S%d" % w, {"a": ("in", _vec(k, w)), "o": ("out", _vec(k, w))}, ["self.o <<= abs(self.a)"])
+            for n in (0, 1, w):
+                add("shl_%s%d_%d" % (k, w, n), {"a": ("in", _vec(k, w)), "o": ("out", _vec(k, w))}, ["self.o <<= self.a << %d" % n])
+                add("shr_%s%d_%d" % (k, w, n), {"a": ("in", _vec(k, w)), "o": ("out", _vec(k, w))}, ["self.o <<= self.a >> %d" % n])
+            add("shl_rt_%s%d" % (k, w), {"a": ("in", _vec(k, w)), "n": ("in", _vec("U", 2)), "o": ("out", _vec(k, w))},
+                ["self.o <<= self.a << self.n"])
+            add("shr_rt_%s%d" % (k, w), {"a": ("in", _vec(k, w)), "n": ("in", _vec("U", 2)), "o": ("out", _vec(k, w))},
+                ["self.o <<= self.a >> self.n"])
+            lits = [0, 1, (1 << w) - 1] if k == "U" else [0, 1, -1]
+            for lit in lits:
+                if k == "S" and w < 2 and lit == 1:
+                    continue
+                for op in ("+", "-", "*"):
+                    ow = w + w if op == "*" else w
+                    add("int%s_%s%d_%d" % (op, k, w, lit), {"a": ("in", _vec(k, w)), "o": ("out", _vec(k, ow))},
+                        ["self.o <<= self.a %s %d" % (op, lit)])
+                    add("rint%s_%s%d_%d" % (op, k, w, lit), {"a": ("in", _vec(k, w)), "o": ("out", _vec(k, ow))},
+                        ["self.o <<= %d %s self.a" % (lit, op)])
+                for cmp_ in ("==", "<", ">="):
+                    add("cmpint%s_%s%d_%d" % (cmp_, k, w, lit), {"a": ("in", _vec(k, w)), "o": ("out", "Bit")},
+                        ["self.o <<= self.a %s %d" % (cmp_, lit)])
+                add("intassign_%s%d_%d" % (k, w, lit), {"c": ("in", "Bit"), "o": ("out", _vec(k, w))},
+                    ["self.o <<= %d" % lit])
+            add("toint_%s%d" % (k, w), {"a": ("in", _vec(k, w)), "b": ("in", _vec(k, w)), "o": ("out", _vec(k, w))},
+                ["self.o <<= self.b"], "concurrent", ["isig = Signal[int](name='isig')", "ISIG"])
+        # select_with / match on vectors
+        if w <= 3:
+            keys = [format(v, "b").zfill(w) for v in range(min(1 << w, 4))]
+            for k in "BU":
+                d = ", ".join('"%s": self.a' % x if i % 2 == 0 else '"%s": self.b' % x for i, x in enumerate(keys))
+                add("selectwith_%s%d" % (k, w), {"s": ("in", _vec("B", w)), "a": ("in", _vec(k, 3)), "b": ("in", _vec(k, 3)),
+                                                 "o": ("out", _vec(k, 3))},
+                    ["self.o <<= select_with(self.s, {%s}, default=self.b)" % d])
+                lines = ["match self.s:"]
+                for i, x in enumerate(keys[:-1] if len(keys) > 1 else keys):
+                    lines += ['    case "%s":' % x, "        self.o <<= self.%s" % ("a" if i % 2 == 0 else "b")]
+                lines += ["    case _:", "        self.o <<= Null"]
+                add("match_%s%d" % (k, w), {"clk": ("in", "Bit"), "s": ("in", _vec("B", w)), "a": ("in", _vec(k, 3)),
+                                            "b": ("in", _vec(k, 3)), "o": ("out", _vec(k, 3))}, lines, "sequential")
+    # Bit / bool
+    for op in "&|^":
+        add("bit%s_Bit" % op, {"a": ("in", "Bit"), "b": ("in", "Bit"), "o": ("out", "Bit")}, ["self.o <<= self.a %s self.b" % op])
+    add("inv_Bit", {"a": ("in", "Bit"), "o": ("out", "Bit")}, ["self.o <<= ~self.a"])
+    add("not_Bit", {"a": ("in", "Bit"), "o": ("out", "Bit")}, ["self.o <<= not self.a"])
+    add("and_bool", {"a": ("in", "Bit"), "b": ("in", _vec("U", 3)), "o": ("out", "Bit")}, ["self.o <<= self.a and (self.b == 2)"])
+    add("or_bool", {"a": ("in", "Bit"), "b": ("in", _vec("U", 3)), "o": ("out", "Bit")}, ["self.o <<= (self.b > 2) or not self.a"])
+    add("cmp_Bit", {"a": ("in", "Bit"), "b": ("in", "Bit"), "o": ("out", "Bit")}, ["self.o <<= self.a == self.b"])
+    add("ifexpr_Bit", {"a": ("in", "Bit"), "b": ("in", "Bit"), "c": ("in", "Bit"), "o": ("out", "Bit")},
+        ["self.o <<= self.a if self.c else self.b"])
+    add("concat_Bit_Bit", {"a": ("in", "Bit"), "b": ("in", "Bit"), "o": ("out", _vec("B", 2))}, ["self.o <<= self.a @ self.b"])
+    add("bool_var", {"clk": ("in", "Bit"), "a": ("in", _vec("U", 3)), "o": ("out", "Bit")},
+        ["v = Variable[bool](name='bv')", "v @= self.a == 3", "self.o <<= v"], "sequential")
+    add("array_rw", {"clk": ("in", "Bit"), "a": ("in", _vec("U", 3)), "i": ("in", _vec("U", 1)), "o": ("out", _vec("U", 3))},
+        ["mem[self.i] <<= self.a", "self.o <<= mem[0]"], "sequential", ["mem = Signal[Array[Unsigned[3], 2]](name='mem')"])
+    add("enum_match", {"clk": ("in", "Bit"), "a": ("in", "Bit"), "o": ("out", _vec("U", 2))},
+        ["match st:", "    case Col.red:", "        self.o <<= 1", "        st.next = Col.green", "    case Col.green:",
+         "        self.o <<= 2", "        if self.a:", "            st.next = Col.blue", "    case _:", "        self.o <<= 0",
+         "        st.next = Col.red"], "sequential", ["st = Signal[Col](Col.red, name='st')", "ENUM"])
+    add("enum_cmp", {"clk": ("in", "Bit"), "a": ("in", "Bit"), "o": ("out", "Bit")},
+        ["self.o <<= st == Col.blue", "st.next = Col.blue if self.a else Col.red"], "sequential",
+        ["st = Signal[Col](Col.red, name='st')", "ENUM"])
+    return out
+
+
+def expr_design(idx, stmts):
+    """pack statements (each with its own ports, renamed) into one entity"""
+    ports = []
+    pre = []
+    blocks = []
+    need_enum = False
+    clk = False
+    for j, st in enumerate(stmts):
+        ren = {}
+        for pn, (dr, ty) in st["ports"].items():
+            if pn == "clk":
+                clk = True
+                continue
+            new = "%s%d" % (pn, j)
+            ren[pn] = new
+            ports.append("    %s = Port.%s(%s)\n" % (new, "input" if dr == "in" else "output", ty))
+
+        def rn(line):
+            return re.sub(r"self\.(\w+)", lambda m: "self." + ren.get(m.group(1), m.group(1)), line)
+        loc = {}
+        for p in st["pre"]:
+            if p == "ENUM":
+                need_enum = True
+                continue
+            if p == "ISIG":
+                continue
+            m = re.match(r"(\w+) = ", p)
+            loc[m.group(1)] = "%s_%d" % (m.group(1), j)
+            pre.append("        " + re.sub(r"name='(\w+)'", lambda mm: "name='%s_%d'" % (mm.group(1), j),
+                                          p.replace(m.group(1) + " = ", loc[m.group(1)] + " = ", 1)) + "\n")
+
+        def rl(line):
+            for a, b in loc.items():
+                line = re.sub(r"\b%s\b" % a, b, line)
+            return line
+        body = [rl(rn(l)) for l in st["body"]]
+        if "ISIG" in st["pre"]:
+            body = ["%s.next = self.%s" % (loc["isig"], ren["a"]), "self.%s <<= %s" % (ren["o"], loc["isig"])]
+        if st["ctx"] == "sequential":
+            clk = True
+            blocks.append("        @std.sequential(std.Clock(self.clk))\n        def p%d():\n" % j +
+                          "".join("            %s\n" % l for l in body) + "\n")
+        else:
+            blocks.append("        @std.concurrent\n        def c%d():\n" % j + "".join("            %s\n" % l for l in body) + "\n")
+    src = HDR
+    if need_enum:
+        src += "class Col(cohdl.enum.Enum):\n    red = 1\n    green = 2\n    blue = 3\n\n"
+    src += "class X%d(cohdl.Entity):\n" % idx
+    if clk:
+        src += "    clk = Port.input(Bit)\n"
+    src += "".join(ports) + "\n    def architecture(self):\n" + "".join(pre) + "\n" + "".join(blocks)
+    return {"name": "ex%04d" % idx, "source": src, "entity": "X%d" % idx, "reserved": None,
+            "meta": {"gen": "expr", "tags": [s["tag"] for s in stmts]}}
+
+
+CORPUS = [
+    # (name, entity, reserved, source)
+    ("corp_known3", "E1", None, HDR + """class E1(cohdl.Entity):
+    clk = Port.input(Bit)
+    a = Port.input(Unsigned[4])
+    i = Port.input(Unsigned[2])
+    state_0 = Port.input(Bit)
+    o = Port.output(Bit)
+    p = Port.output(Unsigned[4])
+    def architecture(self):
+        to_integer = Signal[Unsigned[2]](name="to_integer")
+        @std.concurrent
+        def l():
+            to_integer.next = self.i
+            self.o <<= self.a[to_integer]
+        @std.sequential(std.Clock(self.clk))
+        async def co():
+            self.p <<= self.a
+            await self.state_0
+            self.p <<= -self.a
+"""),
+    ("corp_hide_to_integer", "E2", None, HDR + """class E2(cohdl.Entity):
+    a = Port.input(Unsigned[4])
+    i = Port.input(Unsigned[2])
+    o = Port.output(Bit)
+    def architecture(self):
+        s = Signal[Unsigned[2]](name="to_integer")
+        @std.concurrent
+        def l():
+            s.next = self.i
+            self.o <<= self.a[s]
+"""),
+    ("corp_enumlit_port", "E3", None, HDR + """class E3(cohdl.Entity):
+    clk = Port.input(Bit)
+    state_0 = Port.input(Bit)
+    o = Port.output(Bit)
+    def architecture(self):
+        @std.sequential(std.Clock(self.clk))
+        async def co():
+            self.o <<= Null
+            await self.state_0
+            self.o <<= Full
+"""),
+    ("corp_uminus_unsigned", "E4", None, HDR + """class E4(cohdl.Entity):
+    a = Port.input(Unsigned[3])
+    o = Port.output(Unsigned[3])
+    def architecture(self):
+        @std.concurrent
+        def l():
+            self.o <<= -self.a
+"""),
+    ("corp_port_raw_names", "foo", None, HDR + """class foo(cohdl.Entity):
+    signal = Port.input(Bit)
+    _x = Port.input(Bit)
+    Foo = Port.input(Bit)
+    x__y = Port.input(Bit)
+    y_ = Port.output(Bit)
+    ABC = Port.input(Bit)
+    abc = Port.output(Bit)
+    def architecture(self):
+        s = Signal[Bit](name="_s__t_")
+        t = Signal[Bit](name="S__T")
+        @std.concurrent
+        def process():
+            s.next = self.signal & self._x & self.Foo & self.x__y
+            t.next = s
+            self.y_ <<= t
+            self.abc <<= self.ABC
+"""),
+    ("corp_enum_literal_vs_signal", "E5", None, HDR + """class Col(cohdl.enum.Enum):
+    red = 1
+    GREEN = 2
+
+class E5(cohdl.Entity):
+    clk = Port.input(Bit)
+    o = Port.output(Bit)
+    def architecture(self):
+        green = Signal[Col](Col.red, name="green")
+        @std.sequential(std.Clock(self.clk))
+        def proc():
+            self.o <<= green == Col.GREEN
+            green.next = Col.GREEN
+"""),
+    ("corp_user_reserved_case", "E6", ["Keep"], HDR + """class E6(cohdl.Entity):
+    a = Port.input(Bit)
+    o = Port.output(Bit)
+    def architecture(self):
+        s = Signal[Bit](name="keep")
+        @std.concurrent
+        def l():
+            s.next = self.a
+            self.o <<= s
+"""),
+    ("corp_hierarchy_case_collision", "SUB", None, HDR + """class Sub(cohdl.Entity):
+    x = Port.input(Bit)
+    y = Port.output(Bit)
+    def architecture(self):
+        @std.concurrent
+        def l():
+            self.y <<= ~self.x
+
+class SUB(cohdl.Entity):
+    a = Port.input(Bit)
+    o = Port.output(Bit)
+    def architecture(self):
+        Sub(x=self.a, y=self.o)
+"""),
+    ("corp_signal_named_work", "E7", None, HDR + """class Sub(cohdl.Entity):
+    x = Port.input(Bit)
+    y = Port.output(Bit)
+    def architecture(self):
+        @std.concurrent
+        def l():
+            self.y <<= ~self.x
+
+class E7(cohdl.Entity):
+    a = Port.input(Bit)
+    o = Port.output(Bit)
+    def architecture(self):
+        w = Signal[Bit](name="work")
+        Sub(x=self.a, y=w)
+        @std.concurrent
+        def l():
+            self.o <<= w
+"""),
+    ("corp_plain_ok", "E8", None, HDR + """class E8(cohdl.Entity):
+    clk = Port.input(Bit)
+    a = Port.input(Unsigned[4])
+    b = Port.input(Signed[4])
+    i = Port.input(Unsigned[2])
+    o = Port.output(Bit)
+    q = Port.output(Signed[8])
+    def architecture(self):
+        @std.concurrent
+        def l():
+            self.o <<= self.a[self.i]
+        @std.sequential(std.Clock(self.clk))
+        def p():
+            if self.a == 3:
+                self.q <<= self.b
+            else:
+                self.q <<= -self.b
+"""),
+]
+
+
+# ----------------------------------------------------------------------------------------------------------
+# classification of a failing rule (diagnosis only; the verdict itself comes from Coq)
+# ----------------------------------------------------------------------------------------------------------
+
+LIVE_RESERVED = set()
+
+
+def name_class(n):
+    low = n.lower()
+    if not re.fullmatch(r"[A-Za-z](?:_?[A-Za-z0-9])*", n):
+        if n.startswith("_"):
+            return "leading_underscore"
+        if n.endswith("_"):
+            return "trailing_underscore"
+        if "__" in n:
+            return "double_underscore"
+        return "illegal_identifier"
+    if low in PREDEF:
+        return "predefined"
+    if low in LIVE_RESERVED or low in VHDL93:
+        return "reserved"
+    return "plain"
+
+
+VHDL93 = set("""abs access after alias all and architecture array assert attribute begin block body buffer bus case
+component configuration constant disconnect downto else elsif end entity exit file for function generate generic group
+guarded if impure in inertial inout is label library linkage literal loop map mod nand new next nor not null of on open
+or others out package port postponed procedure process pure range record register reject rem report return rol ror
+select severity signal shared sla sll sra srl subtype then to transport type unaffected units until use variable wait
+when while with xnor xor""".split())
+
+
+def kinds_of(ent, name):
+    ks = sorted({("port" if region == "entity" and kind == "sig" else kind) for region, kind, nm in ent.names
+                 if nm.lower() == name.lower()})
+    return "+".join(ks)
+
+
+def has_uminus_unsigned(case):
+    """is there a unary minus applied to an unsigned operand in the entity (diagnosis)"""
+    ent = case.ent
+    tys = {}
+    for d in list(ent.ports) + list(ent.signals):
+        tys[d.name.lower()] = d.ty
+    for c in ent.conc:
+        if isinstance(c, R.Process):
+            for v in c.vars:
+                tys[v.name.lower()] = v.ty
+
+    def kind(e):
+        return ExprKind(tys).kind(e)
+
+    found = []
+
+    def walk(e):
+        if not isinstance(e, tuple):
+            return
+        if e and e[0] == "un" and e[1] in ("UNeg", "UAbs") and kind(e[2]) == "uns":
+            found.append(pp_expr(e))
+        for x in e[1:]:
+            if isinstance(x, tuple):
+                walk(x)
+            elif isinstance(x, list):
+                for y in x:
+                    walk(y)
+    for c in ent.conc:
+        if isinstance(c, R.Process):
+            walk(("body", c.body))
+        elif isinstance(c, tuple):
+            walk(c)
+    return found
+
+
+class ExprKind:
+    def __init__(self, tys):
+        self.tys = tys
+
+    def kind(self, e):
+        k = e[0]
+        if k == "name":
+            t = self.tys.get(e[1].lower())
+            return t.vk if t is not None and t.kind == "vec" else None
+        if k == "lit":
+            return e[1][1] if e[1][0] == "V" else None
+        if k == "slice":
+            return self.kind(e[1])
+        if k == "f1":
+            return {"FConvUns": "uns", "FConvSgn": "sgn", "FConvSlv": "slv", "FQualUns": "uns", "FQualSgn": "sgn",
+                    "FQualSlv": "slv"}.get(e[1])
+        if k == "f2":
+            if e[1] in ("FResize", "FShl", "FShr"):
+                return self.kind(e[2])
+            return {"FToUnsigned": "uns", "FToSigned": "sgn"}.get(e[1])
+        if k == "un":
+            return self.kind(e[2])
+        if k == "bin" and e[1] in ("OAdd", "OSub", "OMul", "ODiv", "OMod", "ORem", "OAnd", "OOr", "OXor"):
+            return self.kind(e[2]) or self.kind(e[3])
+        return None
+
+
+def classify(case, rule, bad_conc):
+    """-> (key dict, description, details) for a failing rule of an entity"""
+    ent = case.ent
+    n = case.meta["names"]
+    if rule == "idents_ok":
+        bad = [x for x in [ent.name, ent.arch] + n["arch"] + [l for ls in n["lits"] for l in ls] +
+               [v for vs, _ in n["procs"] for v in vs] if not re.fullmatch(r"[A-Za-z](?:_?[A-Za-z0-9])*", x)]
+        b = bad[0] if bad else "?"
+        obj = "entity" if b == ent.name else kinds_of(ent, b)
+        return ({"rule": rule, "class": name_class(b), "object": obj},
+                "declared identifier %r is not a VHDL-93 basic identifier" % b, {"identifiers": bad})
+    if rule == "no_reserved":
+        bad = [x for x in [ent.name, ent.arch] + n["arch"] + [l for ls in n["lits"] for l in ls] +
+               [v for vs, _ in n["procs"] for v in vs] if x.lower() in VHDL93]
+        b = bad[0] if bad else "?"
+        obj = "entity" if b == ent.name else kinds_of(ent, b)
+        return ({"rule": rule, "object": obj}, "declared identifier %r is a reserved word" % b, {"identifiers": bad})
+    if rule == "decl_unique":
+        import collections
+        non = [x.lower() for x in n["fixed"] + n["arch"]]
+        dups = [x for x, k in collections.Counter(non).items() if k > 1]
+        lits = [l.lower() for ls in n["lits"] for l in ls]
+        dups += [x for x in set(lits) if x in non]
+        for ls in n["lits"]:
+            dups += [x for x, k in collections.Counter(l.lower() for l in ls).items() if k > 1]
+        for vs, us in n["procs"]:
+            lv = [v.lower() for v in vs]
+            dups += [x for x, k in collections.Counter(lv).items() if k > 1]
+            dups += [v for v in lv if v in non + lits and v in us]
+        d = dups[0] if dups else "?"
+        return ({"rule": rule, "kinds": kinds_of(ent, d)},
+                "identifier %r is declared more than once in one declarative region (kinds %s)" % (d, kinds_of(ent, d)),
+                {"duplicates": sorted(set(dups))})
+    if rule == "no_hiding":
+        hid = []
+        for nm, a, b in n["scoped"]:
+            if nm.lower() in PREDEF and any(r == nm.lower() and a < l <= b for r, l in n["relied"]):
+                hid.append(nm)
+        h = hid[0] if hid else "?"
+        obj = "entity" if h == ent.name else kinds_of(ent, h)
+        return ({"rule": rule, "name": h.lower(), "object": obj},
+                "declared %s %r hides the predefined name the emitted text relies on" % (obj, h), {"hidden": hid})
+    if rule in ("wt_design", "case_ok", "sens_ok", "ports_ok"):
+        stm = []
+        for k in bad_conc[:3]:
+            if k < len(case.meta["stmts"]):
+                stm.append("\n".join(pp_conc(case.meta["stmts"][k])[:40]))
+        cls = "ill_typed"
+        if rule == "wt_design":
+            um = has_uminus_unsigned(case)
+            hidden = [nm for nm, a, b in n["scoped"] if nm.lower() in PREDEF]
+            if um:
+                cls = "unary_minus_or_abs_on_unsigned"
+                stm = um[:3] + stm
+            elif hidden:
+                cls = "consequence_of_hidden_predefined_name"
+        else:
+            hidden = [nm for nm, a, b in n["scoped"] if nm.lower() in PREDEF]
+            cls = "consequence_of_hidden_predefined_name" if hidden else rule
+        return ({"rule": rule, "class": cls}, "rule %s fails (%s)" % (rule, cls), {"statements": stm})
+    if rule == "assoc_ok":
+        return ({"rule": rule}, "a port association is ill-typed", {"associations": case.meta["assoc"]})
+    return ({"rule": rule}, "rule %s fails" % rule, {})
+
+
+def unparsed_key(e: R.Unparsed):
+    msg = re.sub(r"'[^']*'|\"[^\"]*\"|\[.*\]|\d+", "_", e.msg)
+    return {"rule": "parses", "class": msg.strip()[:60]}
+
+
+# ----------------------------------------------------------------------------------------------------------
+# the check
+# ----------------------------------------------------------------------------------------------------------
+
+class Reporter:
+    """one VIOLATION per key; further hits are counted"""
+    def __init__(self, ck):
+        self.ck = ck
+        self.seen = {}
+
+    def report(self, key, what, replay):
+        k = json.dumps(key, sort_keys=True)
+        self.seen[k] = self.seen.get(k, 0) + 1
+        if self.seen[k] == 1:
+            self.ck.violation(key, what, replay)
+
+
+def design_replay(d, res, extra):
+    rep = {"design": d["name"], "entity": d.get("entity"), "source": d.get("source"), "upstream": d.get("upstream"),
+           "reserved": d.get("reserved"), "meta": d.get("meta"), "vhdl": (res or {}).get("vhdl"),
+           "python": "PYTHONPATH=%s /venv/bin/python -c \"import runpy; from cohdl import std; m = runpy.run_path('<file with source>'); "
+                     "print(std.VhdlCompiler.to_string(m['%s']))\"" % (common.REPO, d.get("entity"))}
+    rep.update(extra)
+    return rep
+
+
+def tables_phase(ck, rep):
+    out = os.path.join(ck.gen, "Tables.v")
+    info = common.run_worker("tables.py", {"out": out})
+    LIVE_RESERVED.update(x.lower() for x in info["reserved"] + info["additional"])
+    rc, o, e = common.coqc(out, extra_q=[(ck.gen, "C06gen")])
+    if rc != 0:
+        raise RuntimeError("generated Tables.v does not compile: " + (o + e)[-800:])
+    hdr = ("From Coq Require Import String List Bool.\nImport ListNotations.\n"
+           "From Cohdl Require Import Vhdl.Names Vhdl.TablesRef.\nFrom C06gen Require Import Tables.\nLocal Open Scope string_scope.\n"
+           "Definition incl_b (a b : list string) : bool := forallb (fun x => smem x b) a.\n"
+           "Definition missing (a b : list string) : list string := filter (fun x => negb (smem x b)) a.\n")
+    obligations = [
+        ("vhdl93_reserved_in_table", "incl_b vhdl93_reserved live_vhdl_reserved = true",
+         "missing vhdl93_reserved live_vhdl_reserved", {"table": "_vhdl_reserved"}),
+        ("table_is_lower_case", "forallb (fun w => String.eqb (lower w) w) live_initially_used = true",
+         "filter (fun w => negb (String.eqb (lower w) w)) live_initially_used", {"table": "_vhdl_reserved/_additional_reserved", "defect": "not lower case"}),
+        ("predefined_used_by_emitter_in_table", "incl_b predefined_used_by_emitter live_initially_used = true",
+         "missing predefined_used_by_emitter live_initially_used", {"table": "_additional_reserved", "defect": "predefined names used by the emitter are not reserved"}),
+        ("binop_table_agrees", "pairs_eqb live_binop_string binop_string_ref = true", "live_binop_string",
+         {"table": "BinOp.operator_string"}),
+        ("compare_table_agrees", "pairs_eqb live_compare_string compare_string_ref = true", "live_compare_string",
+         {"table": "Compare.operator_string"}),
+        ("unaryop_table_agrees", "pairs_eqb live_unaryop_string unaryop_string_ref = true", "live_unaryop_string",
+         {"table": "UnaryOp.operator_string"}),
+    ]
+    files = []
+    for name, stmt, diag, key in obligations:
+        path = os.path.join(ck.gen, "T_%s.v" % name)
+        with open(path, "w") as f:
+            f.write(hdr + "Eval vm_compute in (%s).\nTheorem %s : %s.\nProof. vm_compute. reflexivity. Qed.\n" % (diag, name, stmt))
+        files.append(path)
+    outs = common.coqc_many(files, timeout=600, extra_q=[(ck.gen, "C06gen")])
+    # `Require Import Tables` needs the directory on the load path without a prefix
+    for (name, stmt, diag, key), path, (rc, o, e) in zip(obligations, files, outs):
+        ok = rc == 0
+        ck.obligation(ok)
+        ck.evaluations += 1
+        if ok:
+            common._cleanup_v(path)
+        else:
+            res = common.coq_outputs(o)
+            key = dict(key)
+            key["rule"] = "tables"
+            rep.report(key, "table obligation %s fails: %s" % (name, stmt),
+                       {"obligation": name, "statement": stmt, "diagnosis (%s)" % diag: res[0] if res else (o + e)[-600:],
+                        "live_tables": info, "file": path})
+    ck.cov["tables"] = {"reserved": len(info["reserved"]), "additional_reserved": info["additional"],
+                        "binop": info["binop"], "compare": info["compare"], "unaryop": info["unaryop"]}
+    return info
+
+
+def uniquify_phase(ck, rep, compiled, live):
+    """model = code for every recorded complete_setup"""
+    base = sorted(set(live["reserved"]) | set(live["additional"]))
+    bset = set(base)
+    terms = []
+    owners = []
+    for d, res in compiled:
+        for sc in res.get("scopes") or []:
+            if sc.get("names") is None or any(r is None for r in sc.get("reqs", [None])):
+                continue
+            if not sc["reqs"]:
+                continue
+            used = sc["used"]
+            extra = [u for u in used if u not in bset]
+            if bset <= set(used):
+                ut = "(live_initially_used ++ %s)" % coq_strs(extra)
+            else:
+                ut = coq_strs(used)
+            terms.append("(%s, %s, %s)" % (ut, coq_strs(sc["reqs"]), coq_strs(sc["names"])))
+            owners.append((d, res, sc))
+    if not terms:
+        return
+    pre = ("From Coq Require Import String List Bool NArith.\nImport ListNotations.\n"
+           "From Cohdl Require Import Vhdl.Names.\nFrom C06gen Require Import Tables.\nLocal Open Scope string_scope.\n"
+           "Fixpoint strs_eqb (a b : list string) : bool := match a, b with [] , [] => true | x :: r, y :: r' => "
+           "String.eqb x y && strs_eqb r r' | _, _ => false end.\n")
+    files = []
+    shard = 150
+    for si in range(0, len(terms), shard):
+        path = os.path.join(ck.gen, "uniq_%04d.v" % (si // shard))
+        with open(path, "w") as f:
+            f.write(pre + "From Cohdl Require Import Base.Util.\n")
+            f.write("Definition cases : list (list string * list string * list string) := [\n  " +
+                    ";\n  ".join(terms[si:si + shard]) + "].\n")
+            f.write("Eval vm_compute in (bad_indices (fun c => strs_eqb (uniquify (fst (fst c)) (snd (fst c))) (snd c)) cases).\n")
+        files.append((si, path))
+    outs = common.coqc_many([p for _, p in files], timeout=900, extra_q=[(ck.gen, "C06gen")])
+    bad = []
+    for (si, path), (rc, o, e) in zip(files, outs):
+        if rc != 0:
+            raise RuntimeError("coqc failed on %s: %s" % (path, (o + e)[-800:]))
+        bad += [si + i for i in common.parse_N_list(common.coq_outputs(o)[-1])]
+        common._cleanup_v(path)
+    ck.obligation(True, len(terms) - len(bad))
+    ck.evaluations += len(terms)
+    ck.cov["uniquify_scopes_compared"] = ck.cov.get("uniquify_scopes_compared", 0) + len(terms)
+    renamed = 0
+    for (d, res, sc) in owners:
+        if any(a.strip("_") != b for a, b in zip(sc["reqs"], sc["names"])):
+            renamed += 1
+            ck.nontrivial("uniq:" + json.dumps([sc["reqs"], sc["names"]]))
+    ck.cov["uniquify_scopes_with_renaming"] = ck.cov.get("uniquify_scopes_with_renaming", 0) + renamed
+    for i in bad:
+        d, res, sc = owners[i]
+        ck.obligation(False)
+        # specification: the assigned names are pairwise distinct (case-insensitively) and avoid the used names
+        low = [x.lower() for x in sc["names"]]
+        spec_ok = len(set(low)) == len(low) and not (set(low) & set(sc["used"]))
+        rep.report({"rule": "uniquify_model", "spec_violated": not spec_ok},
+                   "complete_setup no longer agrees with Names.uniquify" + ("" if spec_ok else " and its result collides"),
+                   design_replay(d, res, {"scope": sc}))
+
+
+def run(ck: common.Check, replay=None):
+    rep = Reporter(ck)
+    ck.check_props("C06_Properties.v")
+    live = tables_phase(ck, rep)
+    rng = ck.rng
+    quick = ck.tier == "quick"
+    designs = []
+    if replay is not None and replay.get("source"):
+        designs = [{"name": "replay", "source": replay["source"], "entity": replay["entity"],
+                    "reserved": replay.get("reserved"), "meta": {"gen": "replay"}}]
+    else:
+        for name, ent, reserved, src in CORPUS:
+            designs.append({"name": name, "source": src, "entity": ent, "reserved": reserved, "meta": {"gen": "corpus"}})
+        n_naming = int(os.environ.get("C06_NAMING", 110 if quick else 1500))
+        for i in range(n_naming):
+            designs.append(naming_design(rng, i))
+        stmts = expr_statements(rng, ck.tier)
+        if quick:
+            pick = rng.sample(stmts, int(os.environ.get("C06_EXPR", 260)))
+            # one of every unary / cast family is always in
+            must = [s for s in stmts if s["tag"] in ("neg_U3", "neg_S3", "abs_S3", "enum_match", "enum_cmp", "array_rw",
+                                                     "bool_var", "neg_seq_U3", "toint_U3", "selectwith_B2", "match_B2")]
+            pick = must + [s for s in pick if s not in must]
+        else:
+            pick = list(stmts)
+            rng.shuffle(pick)
+        per = 4 if quick else 3
+        for i in range(0, len(pick), per):
+            designs.append(expr_design(i // per, pick[i:i + per]))
+    ups = None
+    if replay is None and (not quick or os.environ.get("C06_UPSTREAM")):
+        ups = "all"
+    payload = {"dir": os.path.join(ck.gen, "src"), "jobs": common.NCPU, "designs": designs}
+    if ups:
+        payload["upstream"] = ups
+    results = common.run_worker("c06_worker.py", payload, timeout=6000)["results"]
+    for r in results[len(designs):]:
+        designs.append({"name": r["name"], "upstream": r.get("upstream"), "entity": None, "meta": {"gen": "upstream"}})
+
+    # thorough: statements of a rejected pack are compiled again one by one
+    if not quick and replay is None:
+        singles = []
+        for d, r in zip(list(designs), list(results)):
+            if d["meta"].get("gen") == "expr" and not r["ok"] and len(d["meta"]["tags"]) > 1:
+                by = {s["tag"]: s for s in stmts}
+                for t in d["meta"]["tags"]:
+                    singles.append(expr_design(10000 + len(singles), [by[t]]))
+        if singles:
+            r2 = common.run_worker("c06_worker.py", {"dir": os.path.join(ck.gen, "src"), "jobs": common.NCPU,
+                                                     "designs": singles}, timeout=6000)["results"]
+            designs += singles
+            results += r2
+
+    compiled = []
+    cases = []
+    lib_terms = []
+    lib_owner = []
+    for d, r in zip(designs, results):
+        g = d["meta"]["gen"]
+        ck.hist("designs", g)
+        if not r["ok"]:
+            ck.hist("rejected", g)
+            if g == "expr":
+                for t in d["meta"]["tags"]:
+                    ck.hist("rejected_expr_family", t.split("_")[0])
+            if g == "upstream":
+                ck.hist("upstream_not_compiled", r.get("error_type"))
+            else:
+                ck.hist("reject_kinds", "%s: %s" % (r.get("error_type"), re.sub(r"\d+", "N", r.get("error", ""))[:70]))
+            continue
+        ck.hist("accepted", g)
+        compiled.append((d, r))
+        ck.evaluations += 1
+        try:
+            cs, lib = build_cases(d["name"], r["vhdl"])
+        except R.Unparsed as e:
+            if g == "upstream":
+                # reader subset limits on designs ghdl accepts upstream: counted, cannot be judged
+                ck.hist("upstream_outside_reader_subset", unparsed_key(e)["class"])
+                continue
+            ck.obligation(False)
+            rep.report(unparsed_key(e), "emitted VHDL left the legal subset: " + str(e),
+                       design_replay(d, r, {"rule": "parses", "offending_line": e.line, "message": e.msg}))
+            continue
+        ck.obligation(True)         # parses
+        for c in cs:
+            c.design = d
+            c.result = r
+        cases += cs
+        lib_terms.append(coq_strs(lib))
+        lib_owner.append((d, r, lib))
+        if g == "expr":
+            for t in d["meta"]["tags"]:
+                ck.nontrivial("expr:" + t)
+                ck.hist("expr_family", t.split("_")[0])
+        elif g == "naming":
+            for kind, slot, nm in d["meta"]["special"]:
+                ck.nontrivial("naming:%s:%s:%s" % (kind, slot, nm))
+                ck.hist("naming_kind", kind)
+                ck.hist("naming_slot", slot)
+        elif g == "upstream":
+            ck.nontrivial("upstream:" + d["upstream"])
+        if len(ck.samples) < 4 and g in ("naming", "expr"):
+            ck.sample({"design": d["name"], "meta": d["meta"], "entities": lib, "vhdl_lines": r["vhdl"].count("\n")})
+
+    verdicts = eval_cases(ck, "ent", cases)
+    ck.cov["entities_checked"] = len(cases)
+    for c, v in zip(cases, verdicts):
+        if v is not None and v[0] == "coq-error" and "Stack overflow" in v[1]:
+            v = eval_one_big(ck, "ent_%s" % c.dname[:40], c)
+        if v is None or v[0] == "coq-error":
+            ck.obligation(False)
+            rep.report({"rule": "term", "class": "case term rejected by Coq"}, "the printed entity is not a well-formed term",
+                       design_replay(c.design, c.result, {"entity_checked": c.ent.name, "log": v[1] if v else None}))
+            continue
+        failing, bad_conc = v
+        for i, rule in enumerate(RULES):
+            ok = i not in failing
+            ck.obligation(ok)
+            if not ok:
+                key, what, det = classify(c, rule, bad_conc)
+                ck.hist("failing_rules", rule)
+                rep.report(key, "%s: %s (entity %s)" % (rule, what, c.ent.name),
+                           design_replay(c.design, c.result, dict(det, rule=rule, entity_checked=c.ent.name,
+                                                                  ill_typed_conc=bad_conc[:10])))
+    # library level: every entity name once
+    if lib_terms:
+        pre = ("From Coq Require Import String List Bool NArith.\nImport ListNotations.\nFrom Cohdl Require Import Vhdl.Names.\n"
+               "Local Open Scope string_scope.\n")
+        bad = common.coq_bad_indices(ck, "lib", pre, "list string", lib_terms, "lib_unique")
+        for i in range(len(lib_terms)):
+            ck.obligation(i not in bad)
+        for i in bad:
+            d, r, lib = lib_owner[i]
+            rep.report({"rule": "lib_unique"}, "two design units of one library have the same name (case-insensitively): %s" % lib,
+                       design_replay(d, r, {"rule": "lib_unique", "entities": lib}))
+    uniquify_phase(ck, rep, compiled, live)
+    ck.cov["violation_hits_by_key"] = rep.seen
+    ck.cov["rule"] = ("a case = one entity of one compiled design; distinct_nontrivial counts distinct (naming kind, slot, "
+                      "name) triples, distinct expression templates, distinct upstream designs and distinct renaming scopes")
+    ck.cov["rules"] = RULES + ["parses", "lib_unique", "uniquify model = code", "tables"]
+    ck.trusted += ["vhdl_reader.py (fail-closed parser of the emitted subset) and c06.scan_text (declared identifiers with "
+                   "their scope lines, predefined identifiers used in predefined role; cross-checked against the reader)",
+                   "Vhdl/TablesRef.v: the VHDL-93 reserved words and the predefined names the emitter prints (checked in)",
+                   "c06_worker.raw_request: replica of the override / hint / fallback choice of complete_setup l.698-746 "
+                   "(inputs of the uniquify model)"]
+    ck.assumptions += ["legality is judged on the reader's subset of VHDL-93 (the subset all upstream reference designs stay in, "
+                       "except inout ports, array aggregates in assignments and concurrent assertions, which are counted as "
+                       "outside the subset for upstream designs only)",
+                       "no_hiding judges reliance textually: call / conversion / type-mark positions inside the scope of the "
+                       "hiding declaration",
+                       "typing soundness is proved up to one activation of a concurrent statement (run_conc); the lift "
+                       "to delta cycles is not proved"]
